@@ -57,11 +57,12 @@ func VerifRouteOf(t Table, tg *Target) (host, path string, ok bool) {
 	return "", "", false
 }
 
-// VerifGlobMatch compiles the pattern the way the table code does (no separators) and matches s.
+// VerifGlobMatch compiles the pattern the way the table code does (no separators) and matches s with
+// globMatch, as matchingHosts and globMatcher do (a Match that panics counts as no match).
 func VerifGlobMatch(pattern, s string) (matched, compiled bool) {
 	g, err := glob.Compile(pattern)
 	if err != nil {
 		return false, false
 	}
-	return g.Match(s), true
+	return globMatch(g, s), true
 }
